@@ -28,4 +28,4 @@ echo "-- demo with the change:"; run_demo
 echo "-- baseline suite with the change:"
 (cd /verif && flock /tmp/sa-test.lock python3 tools/baseline.py $d | tail -3)
 echo "-- check $prop $tier against the changed tree:"
-VERIF_REPO=$d VERIF_MAXVIOL=${VERIF_MAXVIOL:-3} /verif/check $prop $tier 2>&1 | grep -E '^VIOLATION|^  key|^  detail|(quick|thorough):|BUILD|exited|KNOWN|HARNESS' | cut -c1-300 | head -12
+VERIF_REPO=$d VERIF_MAXVIOL=${VERIF_MAXVIOL:-3} /verif/check $prop $tier 2>&1 | grep -a -E '^VIOLATION|^  key|^  detail|(quick|thorough):|BUILD|exited|KNOWN|HARNESS' | cut -c1-300 | head -12
